@@ -29,6 +29,24 @@ type Obligation struct {
 	Expected string // "unsat" for proof goals, "sat" for cover / must-fail probes
 	Note     string
 	fs       *fnState
+	ni       *niInfo
+}
+
+// detFact: an external call is deterministic in its arguments (used by NI checks).
+type detFact struct {
+	at   int
+	args []string
+	res  []string
+	cond string // extra premise (holds in both runs) for callee NI clauses
+}
+
+// niInfo describes a non-interference obligation: the function is run twice
+// (second copy obtained by renaming every run-local symbol) on entry states
+// that differ only in the designated memory.
+type niInfo struct {
+	bases    map[string]bool // base cell names (X!0) that differ between the runs
+	relation []string        // assertions relating the two entry states
+	goalB    func(ren func(string) string) string
 }
 
 // Held reports whether the obligation came out as expected.
@@ -63,35 +81,37 @@ type loopInfo struct {
 }
 
 type fnState struct {
-	e        *Engine
-	fn       *ssa.Function
-	fc       *spec.FuncContract
-	log      []string
-	declared map[string]bool
-	nfresh   int
-	vals     map[ssa.Value]SV
-	exitEnv  map[*ssa.BasicBlock]*env
-	exitRch  map[*ssa.BasicBlock]string
-	cur      *env
-	reach    string
-	blk      *ssa.BasicBlock
-	obls     []*Obligation
-	entry    *env
-	loops    map[*ssa.BasicBlock]*loopInfo
-	loopList []*loopInfo
-	cellSort map[string]string
-	direct   map[*ssa.Alloc]bool
-	sites    map[string]int
-	curPos   token.Pos
-	discover bool
-	params   map[string]SV
-	results  []string // result names
-	retSeen  int
-	strLits  map[string]string
-	notes    map[string]bool
-	rangeIt  map[ssa.Value]string // Range instr -> cell key of its position
-	frameK   map[string]string    // heap map key -> skolem location for the frame check
-	failed   error
+	e         *Engine
+	fn        *ssa.Function
+	fc        *spec.FuncContract
+	log       []string
+	declared  map[string]bool
+	nfresh    int
+	vals      map[ssa.Value]SV
+	exitEnv   map[*ssa.BasicBlock]*env
+	exitRch   map[*ssa.BasicBlock]string
+	cur       *env
+	reach     string
+	blk       *ssa.BasicBlock
+	obls      []*Obligation
+	entry     *env
+	loops     map[*ssa.BasicBlock]*loopInfo
+	loopList  []*loopInfo
+	cellSort  map[string]string
+	direct    map[*ssa.Alloc]bool
+	sites     map[string]int
+	curPos    token.Pos
+	discover  bool
+	params    map[string]SV
+	results   []string // result names
+	retSeen   int
+	strLits   map[string]string
+	notes     map[string]bool
+	rangeIt   map[ssa.Value]string // Range instr -> cell key of its position
+	frameK    map[string]string    // heap map key -> skolem location for the frame check
+	detFacts  []detFact
+	localSyms map[string]bool // symbols that are private to one run (renamed in the second copy of an NI check)
+	failed    error
 }
 
 func (f *fnState) key() string { return f.fn.String() }
@@ -106,10 +126,24 @@ func (f *fnState) declare(name, sort string) {
 	f.emit(fmt.Sprintf("(declare-const %s %s)", sym(name), sort))
 }
 
+var sharedPrefixes = []string{"p_", "fv_", "newref", "nextref", "acap", "fk_", "strlit", "implements", "fconst"}
+
 func (f *fnState) fresh(prefix, sort string) string {
 	f.nfresh++
 	n := fmt.Sprintf("%s!%d", prefix, f.nfresh)
 	f.declare(n, sort)
+	shared := false
+	for _, p := range sharedPrefixes {
+		if strings.HasPrefix(prefix, p) {
+			shared = true
+		}
+	}
+	if !shared {
+		if f.localSyms == nil {
+			f.localSyms = map[string]bool{}
+		}
+		f.localSyms[n] = true
+	}
 	return sym(n)
 }
 
